@@ -12,7 +12,7 @@ from vf.units import UnitError, NAMED
 from contracts import kernels as K
 
 DTYPES = (F64, F32, I64, I32)
-CATCH = (UnitError, DTypeError, DimensionError, ValueError, TypeError)
+CATCH = (Exception,)     # whatever the code under verification raises is a path end (engine signals are re-raised by explore before this applies)
 
 
 def run(chk):
